@@ -21,7 +21,8 @@ RULE = ("one run = GFA1 graph with count tags + scheduled delivery + one multipl
 PROBES = ["factor0", "factor1", "negative", "factor_ge2", "self_link", "parallel_links", "containment",
           "given_names", "auto_names_collision", "name_with_star", "distribute_L", "distribute_R",
           "distribute_auto", "distribute_equal", "counts_divided", "id_tagged_edge", "gfa2_graph", "bad_copy_names",
-          "auto_names_collision_nonsegment", "mentioned_identifier", "not_a_segment", "track_origin"]
+          "auto_names_collision_nonsegment", "mentioned_identifier", "not_a_segment", "track_origin",
+          "copy_value_edited_in_place"]
 
 
 def gen(streams, tier, i):
@@ -362,6 +363,31 @@ def run(scn, st):
         names = g.names
         if len(set(names)) != len(names):
             raise core.Violation("names-not-unique", "names %r" % names)
+        # the copies are copies: a value edited inside one of them (a nested JSON value) stays where it is
+        lines_c = [g.segment(c) for c in copies]
+        if all(x is not None for x in lines_c) and len(lines_c) >= 2:
+            for tname in list(lines_c[1].tagnames):
+                val = core.call(lines_c[1].get, tname)
+                if not val.ok or not isinstance(val.value, (list, dict)) or isinstance(val.value, gfapy.NumericArray):
+                    continue
+                nested = [x for x in (val.value.values() if isinstance(val.value, dict) else val.value)
+                          if isinstance(x, (list, dict))]
+                st.count("probe.copy_value_edited_in_place")
+                before = [ob.line_text(x) for j_, x in enumerate(lines_c) if j_ != 1]
+
+                def edit():
+                    if nested:
+                        (nested[0].append(99) if isinstance(nested[0], list) else nested[0].update({"zz": 1}))
+                    elif isinstance(val.value, list):
+                        val.value.append(98)
+                    else:
+                        val.value["zz"] = 1
+                if core.call(edit).ok:
+                    after = [ob.line_text(x) for j_, x in enumerate(lines_c) if j_ != 1]
+                    if after != before:
+                        raise core.Violation("copies-share-values", "editing the value of tag %s inside copy %s changed "
+                                             "%r into %r" % (tname, copies[1], before, after))
+                break
 
 
 from .c02 import simplify  # noqa: E402,F401
